@@ -3,6 +3,7 @@ CONSTANTS
   Kinds = {"A", "B", "C"}
   MaxNest = 3
   MaxSteps = 10
+  ObjKeptInCatch = TRUE
   ObjAfterMsg = TRUE
   ClearActive = TRUE
   Emit = FALSE
